@@ -38,6 +38,9 @@ pub const TEMPLATES: &[&str] = &[
     "---\n---\n--- a\n...\n---\n...\n",
     "- !!str\n- !!null\n- !!int\n- !!float .5\n- !!bool true\n- !!int 0x10\n",
     "? !!float bad\n: 1\n? !!float worse\n: 2\nk: v\n",
+    "- !!float inf\n- !!float nan\n- !!float -Infinity\n- !!float +NaN\n- !!float .inf\n- !!float 1e3\n- !!float 12\n",
+    "a: !!int 0x1F\nb: !!int 12\nc: !!int 1_0\nd: !!bool yes\ne: !!bool true\nf: !!null nil\ng: !!null ~\nh: !!str 12\n",
+    "[!!int \"5\", !!float 'inf', !!bool \"true\", !!null '']\n",
     "[&a x, {*a : [*a, &a y]}, *a]\n",
     "&a : &b\n*a : *b\n",
     "{a: b, ? c, d: }\n",
@@ -46,6 +49,33 @@ pub const TEMPLATES: &[&str] = &[
     "&a [ 1, 2 ]\n...\n&m\nself: *m\nother: 3\n",
     "- &a 1\n- &b 2\n...\n- &c 3\n- &d [*c, *d]\n--- &e {k: *e}\n",
 ];
+
+/// Problems of the library's resolution of one scalar event (text, style, resolved tag) against the
+/// core-schema reference functions of the C08 monitor; tags outside the core schema are not judged.
+fn scalar_value_problems(v: &str, style: saphyr_parser::ScalarStyle, tag: Option<&(String, String)>) -> Vec<(String, String)> {
+    use saphyr_parser::{ScalarStyle, Tag};
+    let t = tag.map(|(h, s)| Tag { handle: h.clone(), suffix: s.clone() });
+    let Ok(got) = crate::util::catch(|| crate::nodes::cn_yaml(&Yaml::value_from_cow_and_metadata(v.to_string().into(), style, t.as_ref()))) else {
+        return vec![("panic".into(), format!("value_from_cow_and_metadata({v:?}, {style:?}, {tag:?}) panicked"))];
+    };
+    let full = tag.map(|(h, s)| format!("{h}{s}"));
+    let core = full.as_deref().and_then(|f| f.strip_prefix("tag:yaml.org,2002:")).filter(|s| matches!(*s, "int" | "float" | "bool" | "null" | "str"));
+    if tag.is_some() && core.is_none() {
+        return vec![];
+    }
+    let must_be_string = style != ScalarStyle::Plain || core == Some("str");
+    if must_be_string {
+        return if got == CN::Str(v.to_string()) { vec![] } else { vec![("not-the-same-string".into(), format!("{v:?} in style {style:?} with tag {full:?} loads as {} instead of the same string", got.show()))] };
+    }
+    match core {
+        None => crate::mon_f::untagged_problems(v, &got),
+        Some(sfx) => {
+            let Ok(untagged) = crate::util::catch(|| crate::nodes::cn_scalar(&saphyr::Scalar::parse_from_cow(v.into()))) else { return vec![] };
+            let g = if got == CN::Bad { None } else { Some(got) };
+            crate::mon_f::tagged_problems(v, sfx, &untagged, &g).into_iter().map(|(c, m)| (format!("tag-{sfx}/{c}"), m)).collect()
+        }
+    }
+}
 
 struct Tee<'i, N: LoadableYamlNode<'i>> {
     loader: YamlLoader<'i, N>,
@@ -156,6 +186,17 @@ pub fn check_c07(input: &str, stats: &mut Stats) {
                 let _ = m;
             }
             Ok(refdocs) => {
+                // "each scalar becomes the value chosen by its text, style and tag": the fold resolves
+                // scalars with the library's own function, so that function's answer for every scalar
+                // event of the log is held against the core-schema reference of C08 here
+                for (e, _) in &log {
+                    if let SEv::Scalar { v, style, tag, .. } = e {
+                        for (class, msg) in scalar_value_problems(v, *style, tag.as_ref()) {
+                            viol(stats, format!("C07/scalar-value/{class}"), msg, case_json(input, vec![]));
+                        }
+                        stats.cnt("scalar_values_checked", 1);
+                    }
+                }
                 nontrivial = refdocs.iter().any(|d| !matches!(d, RN::Leaf(_)));
                 let n_docs_events = log.iter().filter(|e| matches!(e.0, SEv::DocStart(_))).count();
                 if docs.len() != n_docs_events || refdocs.len() != docs.len() {
